@@ -107,3 +107,39 @@ pub fn replay_frame(a: &[String]) {
   println!("{{\"engine\":\"jit-frame\",\"block\":\"NOP; HALT at {:#06x}\",\"start\":{{\"af\":{},\"bc\":{},\"de\":{},\"hl\":{},\"sp\":{},\"pc\":{},\"cycles\":{}}},\"failed_checks\":{:?},\"interpreter\":{{\"af\":{},\"bc\":{},\"de\":{},\"hl\":{},\"sp\":{},\"pc\":{},\"cycles\":{}}},\"translated_on_host_cpu\":{{\"af\":{},\"bc\":{},\"de\":{},\"hl\":{},\"sp\":{},\"pc\":{},\"cycles\":{}}}}}",
     ip, saf, sbc, sde, shl, ssp, sip, scyc, failed, iaf, ibc, ide, ihl, isp, iip, icyc, jaf, jbc, jde, jhl, jsp, jip, jcyc);
 }
+
+/// replay-irq <value>...: the irq harness draws IF, IE, SP, PC, cycles, IME selector, run-state selector, AF, BC, DE, HL.
+/// Runs the REAL Core::handle_interrupt on a real core (real bus) and evaluates the C07 reference model on the outcome.
+pub fn replay_irq(a: &[String]) {
+  use crate::emulator::{InterruptState, RunState};
+  use crate::devices::interrupts::InterruptFlag;
+  let vals: Vec<Vec<u8>> = a.iter().map(|s| hexbytes(s)).collect();
+  let mut s = Replay::new(vals);
+  let if0 = s.u8() & 0x1f; let ie0 = s.u8() & 0x1f;
+  let sp0 = s.u16(); let pc0 = s.u16(); let cyc0 = s.u8();
+  let ime = s.u8(); let rs = s.u8();
+  let pairs = [s.u16() as u32, s.u16() as u32, s.u16() as u32, s.u16() as u32];
+  let mut core = Core::with_code_block(vec![0x76].into_boxed_slice());
+  core.memory.io.interrupt_flag = InterruptFlag::new(if0); core.memory.io.interrupt_mask = ie0;
+  core.registers = Registers { af: pairs[0], bc: pairs[1], de: pairs[2], hl: pairs[3], sp: sp0 as u32, ip: pc0 as u32, cycles: cyc0 as u32 };
+  core.interrupts_enabled = match ime { 0 => InterruptState::Enabled, 1 => InterruptState::Disabled, _ => InterruptState::EnableNext };
+  core.run_state = match rs { 0 => RunState::Run, 1 => RunState::Stop, _ => RunState::Halt };
+  // log the writes through the hook, but let them reach the real bus too
+  bus::install_log_only();
+  bus::reset_log();
+  core.handle_interrupt();
+  let (ev, n) = bus::snapshot();
+  bus::remove_hooks();
+  let r = &core.registers;
+  let o = crate::misc::IrqOut { sp: r.sp, pc: r.ip, cyc: r.cycles, pairs: [r.af, r.bc, r.de, r.hl],
+    if1: core.memory.io.interrupt_flag.as_u8(), ie1: core.memory.io.interrupt_mask,
+    ime: match core.interrupts_enabled { InterruptState::Enabled => 0, InterruptState::Disabled => 1, InterruptState::EnableNext => 2 },
+    rs: match core.run_state { RunState::Run => 0, RunState::Stop => 1, RunState::Halt => 2 },
+    nw: n, w0: (ev[0].addr, ev[0].val), w1: (ev[1].addr, ev[1].val) };
+  let i = crate::misc::IrqIn { if0, ie0, ime, rs, sp0, pc0, cyc0: cyc0 as u32, pairs };
+  let v = crate::misc::irq_verdicts(&i, &o);
+  let failed: Vec<&str> = (0..11).filter(|k| !v[*k]).map(|k| crate::misc::IRQ_NAMES[k]).collect();
+  let (osp, opc, ocyc) = (o.sp, o.pc, o.cyc);
+  println!("{{\"engine\":\"irq\",\"inputs\":{{\"if\":{},\"ie\":{},\"ime\":{},\"run_state\":{},\"sp\":{},\"pc\":{},\"cycles\":{}}},\"failed_checks\":{:?},\"real_code_result\":{{\"sp\":{},\"pc\":{},\"cycles\":{},\"if\":{},\"ie\":{},\"ime\":{},\"run_state\":{},\"writes\":{}}}}}",
+    if0, ie0, ime, rs, sp0, pc0, cyc0, failed, osp, opc, ocyc, o.if1, o.ie1, o.ime, o.rs, o.nw);
+}
